@@ -50,7 +50,7 @@ class CM:
 '''
 
 PRELUDE = '''\
-from typing import Any, Dict, Iterator, List, Optional, Tuple
+from typing import Any, Dict, Generator, Iterator, List, Optional, Tuple
 
 from c06trk import CM, T
 
@@ -82,6 +82,17 @@ def raiser(k: int, x: object) -> object:
 def gen(xs: List[object]) -> Iterator[object]:
     for x in xs:
         yield x
+
+
+def gen_temp(a: object, b: object) -> Generator[object, object, None]:
+    p, q = a, (yield b)
+    yield p
+    yield q
+
+
+def gen_lit(a: object) -> Generator[object, object, None]:
+    r = kw(b"c06-bytes-literal-that-is-not-immortal", (yield a))
+    yield r
 
 
 def va(k: int, *args: object) -> object:
@@ -362,6 +373,16 @@ CONF: list[tuple[str, int, str]] = [
         for y in g:
             r = y
         return r"""),
+    ("gen_temp_across_yield", 2, """
+        g = gen_temp(a, b)
+        r = next(g)
+        if k:
+            return r
+        return g.send(xs)"""),
+    ("gen_literal_across_yield", 1, """
+        g = gen_lit(a)
+        next(g)
+        return len(str(g.send(None)))"""),
     ("closure", 2, """
         def inner() -> object:
             if k:
